@@ -45,10 +45,6 @@ def c19_tiling(ctx, c0, c1):
     img = darsia.Image(ctx.shape_array(n), space_dim=2, scalar=True, dimensions=list(d), origin=list(o))
     P = darsia.Patches(img, num_patches=list(counts), rel_overlap=rel)
     pv, ov = P.pv, P.ov
-    if not ctx.sym:
-        # A1: the float evaluation of ceil((d/c)/(d/n)) may overshoot by one when count | n; such samples are outside the
-        # real-arithmetic contract (the proof covers the clause exactly) and are skipped in the bounded companion
-        ctx.assume(all(int(pv[m]) == pvs[m] for m in range(2)))
     for m in range(2):
         ctx.ensure(f"axis {m}: patch size is ceil(extent / count) voxels", eq(pv[m], pvs[m]))
         ctx.ensure(f"axis {m}: overlap is between 0 and the patch size", and_(ov[m] >= 0, ov[m] <= pv[m]))
@@ -162,8 +158,6 @@ def c19_corners(ctx, shape, counts):
     for rel in OVERLAPS:
         img = darsia.Image(ctx.shape_array(shape), space_dim=2, scalar=True, dimensions=list(d), origin=list(o))
         P = darsia.Patches(img, num_patches=list(counts), rel_overlap=rel)
-        if not ctx.sym:
-            ctx.assume(all(int(P.pv[m]) == -(-shape[m] // counts[m]) for m in range(2)))    # A1 float ceil artefact, see C19.tiling
         cs = img.coordinatesystem
         for i in range(counts[0]):
             for j in range(counts[1]):
@@ -184,17 +178,15 @@ def c19_corners(ctx, shape, counts):
 @ob("C19.float_ceil", kind="B", cases=[dict(n=15, c=5, d=1.1), dict(n=21, c=7, d=0.9), dict(n=39, c=13, d=1.0), dict(n=35, c=5, d=1.0), dict(n=12, c=4, d=1.0), dict(n=30, c=10, d=1.1)],
     funcs=FUNCS, samples=(1, 1), tol=0.0,
     cite="the patches' interiors tile the image ...; the advertised patch ... corners in voxel and physical units agree with each other under the base image's coordinate system",
-    note="bounded, listed inputs: extents DIVISIBLE by the patch count for which the float evaluation of ceil((d / c) / (d / n)) overshoots n / c by one (the proofs treat machine "
-         "arithmetic as real arithmetic, A1, and their companions skip such samples): recorded known finding")
+    note="bounded, listed inputs: extents DIVISIBLE by the patch count for which the float evaluation of ceil((d / c) / (d / n)) overshot n / c by one before the fix dada116 "
+         "(the patch size is now the integer ceil of the voxel counts); kept as a regression check - the companions of the proofs no longer skip such samples either")
 def c19_float_ceil(ctx, n, c, d):
     img = darsia.ScalarImage(np.arange(n * 2, dtype=float).reshape(n, 2), dimensions=[d, 1.0])
     P = darsia.Patches(img, [c, 1])
     rows = [int(P.patches[i][0].img.shape[0]) for i in range(c)]
-    overshoot = int(P.pv[0]) != n // c
     ctx.ensure(f"{n} voxels in {c} patches: every patch has n / c = {n // c} rows (got {rows})", rows == [n // c] * c)
     ctx.ensure("re-assembly reproduces the image", bool(np.array_equal(P.assemble().img, img.img)))
     vox = [int(np.asarray(P.global_corners_voxels[i][0])[0][0]) for i in range(c)]
     # row of the advertised physical corner, to the NEAREST voxel boundary (the corner coordinates themselves carry round-off)
     phys = [int(round(float((img.origin[1] - np.asarray(P.global_corners_cartesian[i][0])[0][1]) / img.voxel_size[0]))) for i in range(c)]
     ctx.ensure(f"advertised voxel corners {vox} == voxels of the advertised physical corners {phys}", vox == phys)
-    ctx.witness("float_ceil_overshoot_of_patch_size", overshoot)
